@@ -93,6 +93,10 @@ func (a *application) start(mode gen.ApplicationMode, options gen.ApplicationOpt
 				a.node.Kill(pid)
 			}
 			a.earlyMu.Lock()
+			// (a member that was gone before it entered the group is not taken out by its termination)
+			for pid := range a.early {
+				a.group.Delete(pid)
+			}
 			a.starting = false
 			a.early = nil
 			a.earlyMu.Unlock()
